@@ -38,7 +38,10 @@ Vocab ==
      link |-> Base \cup {"layer", "technology"}]
 Kinds == DOMAIN Vocab
 ChildKinds == [node |-> {"comp", "svc"}, comp |-> {"svc"}, svc |-> {"if"}, if |-> {"if"}, link |-> {}]
-Tokens(p) == IF p = "stitch_node" THEN {"v1"} ELSE {"v1", "v2"}
+\* "v0" is the falsy value of a property that has one (False, the empty string); a stitch_node of False IS "not set"
+Tokens(p) == IF p = "stitch_node" THEN {"v0", "v1"} ELSE IF p \in {"details", "site"} THEN {"v0", "v1", "v2"} ELSE {"v1", "v2"}
+Stored(asg) == [p \in {q \in DOMAIN asg : ~(q = "stitch_node" /\ asg[q] = "v0")} |-> asg[p]]
+Cleared(asg) == {q \in DOMAIN asg : q = "stitch_node" /\ asg[q] = "v0"}
 
 \* ---------------------------------------------------------------- paths
 Slashes(p) == {i \in 1..Len(p) : SubSeq(p, i, i) = "/"}
@@ -85,9 +88,9 @@ RoundTrip(S, o) == IF ~WellFormed(o.sl) THEN Fail(S, "Unmodelled") ELSE R(S, "ok
 SetProps(S, path, asg) ==
     IF path \notin DOMAIN S.g THEN Fail(S, QErr)
     ELSE IF ~(DOMAIN asg \subseteq Vocab[S.g[path].kind]) THEN Fail(S, "AttributeError")
-    ELSE Ok([S EXCEPT !.g[path].props = Over(@, asg)])
+    ELSE Ok([S EXCEPT !.g[path].props = Over(Without(@, Cleared(asg)), Stored(asg))])
 SetProp(S, path, p, v) ==
-    LET r == SetProps(S, path, [x \in {p} |-> v]) IN IF r.out = "ok" THEN R(r.st, "ok", ValR(v)) ELSE r
+    LET r == SetProps(S, path, [x \in {p} |-> v]) IN IF r.out = "ok" THEN R(r.st, "ok", ValR(Read(r.st, path, p))) ELSE r
 \* unsetting makes the property read as absent; unsetting what is not set is refused by the store
 UnsetProp(S, path, p) ==
     IF path \notin DOMAIN S.g THEN Fail(S, QErr)
@@ -126,7 +129,7 @@ ApplyAsImpl(S, o, F) ==
              kind == S.g[o.path].kind
              wr  == IF "img" \in F THEN ImgNorm(kind, asg) ELSE asg
              old == S.g[o.path].props
-             new == Over(IF "stitch" \in F /\ "stitch_node" \notin DOMAIN wr THEN Without(old, {"stitch_node"}) ELSE old, wr)
+             new == Over(IF "stitch" \in F /\ "stitch_node" \notin DOMAIN wr THEN Without(old, {"stitch_node"}) ELSE Without(old, Cleared(wr)), Stored(wr))
              S2 == [S EXCEPT !.g[o.path].props = new]
          IN  IF o.op = "SetProp" THEN R(S2, "ok", ValR(Read(S2, o.path, o.p))) ELSE Ok(S2)
     ELSE IF o.op \in {"UnsetProp", "SetNone"} /\ o.path \in DOMAIN S.g THEN
@@ -150,9 +153,9 @@ WriteRebuildLaw(S, o) ==
 SetGetLaw(S, path, p, v) ==
     LET r == SetProp(S, path, p, v) IN
     r.out = "ok" =>
-        /\ GetProp(r.st, path, p).res.v = v
+        /\ GetProp(r.st, path, p).res.v = (IF p = "stitch_node" /\ v = "v0" THEN "absent" ELSE v)
         /\ \A q \in DOMAIN S.g : \A x \in Vocab[S.g[q].kind] : (q # path \/ x # p) => Read(r.st, q, x) = Read(S, q, x)
         /\ LET u == UnsetProp(r.st, path, p) IN
-              /\ u.out = "ok" /\ GetProp(u.st, path, p).res.v = "absent"
+              /\ (u.out = "ok" \/ (p = "stitch_node" /\ v = "v0")) /\ GetProp(u.st, path, p).res.v = "absent"
               /\ \A q \in DOMAIN S.g : \A x \in Vocab[S.g[q].kind] : (q # path \/ x # p) => Read(u.st, q, x) = Read(S, q, x)
 =============================================================================
